@@ -440,3 +440,32 @@ def fold_claims_in_group_mode(ctx):
     ok = len(ag) == 1 and is_name(ag[0].args[0], fu.params[1]) and norm(ag[0].args[1]) == 'scope[ACC_TREE]'
     ctx.ob(ok, fu, "with the frame's current tree: %s" % [norm(a) for a in ag])
     ctx.floor(2)
+
+
+@rule('C16.14')
+def container_levels_return_their_accumulator(ctx):
+    """what a dict / list level of a Group spec hands back is its accumulator -- the very dict or
+    list it has been filling, empty or not -- or STOP when nothing below wants more input.  A
+    level that answers anything else for an empty accumulator (``acc or SKIP``) makes the
+    outermost Group return a sentinel instead of ``{}`` when every item was dropped"""
+    r = group_roles(ctx)
+    u = r['unit']
+    acc = r['acc']
+    target, spec = u.params[:2]
+    rets = [n for n in u.own_nodes() if isinstance(n, ast.Return)]
+    ctx.require(len(rets) >= 4, 'GROUP: returns not found (%d)' % len(rets))
+    n_acc = 0
+    for x in rets:
+        ok = x.value is not None
+        for v in (choice_leaves(x.value) if x.value is not None else []):      # ``return STOP if done else acc``
+            leaf = isinstance(v, ast.Call) and (matches(v, '%s.agg(%s, $t)' % (spec, target)) or matches(v, '%s(%s)' % (spec, target)))
+            stop = is_name(v, 'STOP')
+            own = is_name(v, acc)
+            n_acc += own
+            ok = ok and (leaf or stop or own)
+        v = x.value
+        ctx.ob(ok, u, 'a level answers with its accumulator, STOP, or the leaf aggregator\'s answer: %s' % norm(x),
+               '' if ok else 'an empty (or otherwise special) accumulator is replaced by something else: the caller sees %s instead of the container'
+               % norm(v)[:40], node=x)
+    ctx.ob(n_acc >= 2, u, 'both container levels return the accumulator (%d returns)' % n_acc)
+    ctx.floor(5)
